@@ -828,11 +828,23 @@ class RenameModel:
                     sc = f"{v['scope']}{msuffix}" if v['scope'] else ''
                     new[g] = (f"{sc}#{v['local']}{suffix}", {'scope': sc, 'local': v['local'] + suffix, 'role': 'kernel',
                                                           'origin': v['origin'], 'dup': True})
-                for g, (nn, v) in new.items():
+                # the clone of a module holds copies of all its procedures: same-module callees that are not
+                # renamed themselves resolve to their copies in the cloned module
+                todo = list(new)
+                while todo:
+                    g = todo.pop()
+                    nn, v = new[g]
                     self.procs[nn] = v
                     for a, b in self.edges:
-                        if a == g:
-                            new_edges.add((nn, new[b][0] if b in new else b))
+                        if a != g:
+                            continue
+                        if b not in new and b in self.procs and self.procs[g]['scope'] \
+                                and self.procs[b]['scope'] == self.procs[g]['scope']:
+                            w = self.procs[b]
+                            new[b] = (f"{v['scope']}#{w['local']}", {'scope': v['scope'], 'local': w['local'],
+                                                                    'role': 'kernel', 'origin': w['origin'], 'dup': True})
+                            todo.append(b)
+                        new_edges.add((nn, new[b][0] if b in new else b))
                 for a, b in self.edges:
                     if b == n:
                         new_edges.add((a, new[n][0]))
@@ -859,3 +871,99 @@ class RenameModel:
             local = v['local'] if v['local'].endswith(suffix) else v['local'] + suffix
             scope = derive_module_name(v['scope'], suffix, msuffix) if v['scope'] else ''
             self._rename(n, scope, local)
+
+
+def gen_sequence(rng, P, exp, meta, allow=(), maxlen=4):
+    """
+    Random sequence of dup / rem / wrap / dep steps over the evolving model (kernels are addressed by their current
+    names).  Steps whose traits are not in ``allow`` are not generated.  Returns (spec, model, info).
+    """
+    allow = set(allow)
+    byq = {p.qname: p for p in P.procs}
+    model = RenameModel(exp, meta)
+    cands0 = kernel_candidates(P, exp, meta)
+    n = rng.choice([1, 2, 2, 3, 3, 4][:max(1, maxlen + 2)])
+    kinds = [rng.choice(['dup', 'dup', 'rem', 'wrap', 'dep', 'dep', 'dep']) for _ in range(n)]
+    # at most one wrap, one rem, two dep, two dup
+    seen = {}
+    kinds = [k for k in kinds if seen.setdefault(k, 0) < {'wrap': 1, 'rem': 1, 'dep': 2, 'dup': 2}[k]
+             and not seen.__setitem__(k, seen[k] + 1)]
+    if 'rem' in kinds and ('dep' in kinds or 'wrap' in kinds) and 'rem_then_rename' not in allow:
+        drop = 'rem' if rng.random() < 0.5 else 'rename'
+        kinds = [k for k in kinds if (k != 'rem' if drop == 'rem' else k not in ('dep', 'wrap'))]
+    spec, traits = [], set()
+    info = {'dup': [], 'rem': [], 'traits': traits}
+    used_suffix = set()
+    sfx = rng.choice(['_loki', '_lk'])
+    msfx = rng.choice(['_mod', '_mod', None])
+    for pos, kind in enumerate(kinds):
+        later = kinds[pos + 1:]
+        if kind == 'dup':
+            sub = rng.random() < 0.4
+            suffix = next((s for s in rng.sample(['_dupl', '_d2', '_cp'], 3) if s not in used_suffix), None)
+            ok = []
+            for n_, v in sorted(model.procs.items()):
+                q = v['origin']
+                if v['dup'] or q not in cands0 or n_ in model.seeds or v['role'] != 'kernel':
+                    continue
+                if not any(b == n_ for a, b in model.edges):
+                    continue
+                group = [n_] + ([d for d in sorted(model.below(n_)) if d in model.procs] if sub else [])
+                if any(model.procs[g]['dup'] for g in group) or any(g in model.seeds for g in group):
+                    continue
+                ogroup = [model.procs[g]['origin'] for g in group]
+                tr = (set(cands0[q]) - {'intf_block'}) | group_traits(P, exp, ogroup)
+                tr.discard('module_with_siblings')
+                if sub and any(d in model.other and model.other[d] != 'ModuleItem' for d in model.below(n_)):
+                    tr.add('non_procedure_in_subgraph')
+                cloned = [s_ for g in ogroup for s_ in (P.modules[byq[g].module].procs if byq[g].module else [byq[g]])]
+                if 'dep' in later and any(s_.intf_blocks for s_ in cloned):
+                    tr.add('dup_intf_then_rename')
+                if 'wrap' in later and any(not model.procs[g]['scope'] for g in group):
+                    tr.add('dup_free_then_wrap')
+                if any(k in ('dep', 'wrap') for k in kinds[:pos]):
+                    tr.add('dup_after_rename')
+                if tr <= allow:
+                    ok.append((n_, tr))
+            if ok and suffix:
+                n_, tr = rng.choice(ok)
+                used_suffix.add(suffix)
+                traits |= tr
+                opts = {'duplicate_kernels': [model.procs[n_]['local']], 'duplicate_suffix': suffix,
+                        'duplicate_module_suffix': rng.choice([None, '_dmod']), 'duplicate_subgraph': sub}
+                info['dup'].append(n_)
+                spec.append(('dup', opts))
+                model.apply('dup', opts)
+        elif kind == 'rem':
+            ok = []
+            for n_, v in sorted(model.procs.items()):
+                q = v['origin']
+                if v['dup'] or q not in cands0 or n_ in model.seeds:
+                    continue
+                tr = set(cands0[q])
+                if any(model.procs[d]['dup'] for d in model.below(n_) if d in model.procs):
+                    continue
+                if any(model.procs[c]['dup'] for c, b in model.edges if b == n_ and c in model.procs):
+                    continue      # a clone keeps calling the original name of the removed kernel's copy
+                if any(x in info['dup'] for x in [n_] + list(model.below(n_))):
+                    continue
+                if tr <= allow:
+                    ok.append((n_, tr))
+            if ok:
+                n_, tr = rng.choice(ok)
+                traits |= tr
+                opts = {'remove_kernels': [model.procs[n_]['local']]}
+                info['rem'].append(n_)
+                spec.append(('rem', opts))
+                model.apply('rem', opts)
+        elif kind == 'wrap':
+            opts = {'module_suffix': '_mod'}
+            spec.append(('wrap', opts))
+            model.apply('wrap', opts)
+        else:
+            opts = {'suffix': sfx, 'module_suffix': msfx}
+            spec.append(('dep', opts))
+            model.apply('dep', opts)
+    if info['rem'] and any(n in ('dep', 'wrap') for n, _ in spec):
+        traits.add('rem_then_rename')
+    return spec, model, info
